@@ -406,15 +406,37 @@ def _is_valid_language(ck, w):
         ck.fail(o, "apath::Apath::is_valid", "anchor-missing", "is_valid not found")
         return
     fam = lib.family("apath::Apath::is_valid")
+    # ... and the private functions of the same file it calls or hands to an adapter by name (`.all(Apath::is_valid_component)`)
+    seen_ = {fb.name for fb in fam}
+    work_ = list(fam)
+    while work_:
+        fb = work_.pop()
+        refs_ = set(rules._local_callees(lib, fb))
+        for blk_ in fb.blocks:
+            if blk_["cleanup"]:
+                continue
+            for st_ in blk_["stmts"]:
+                if st_["sk"] == "assign":
+                    refs_ |= {op_["fn"] for op_ in st_["rv"].get("ops", []) if op_.get("k") == "const" and "fn" in op_}
+            refs_ |= {op_["fn"] for op_ in blk_["term"].get("args", []) if op_.get("k") == "const" and "fn" in op_}
+        for n_ in sorted(refs_):
+            nb_ = lib.bodies.get(n_)
+            if nb_ is not None and n_ not in seen_ and nb_.file == b.file and n_ != "apath::Apath::is_valid":
+                seen_.add(n_)
+                for x_ in lib.family(n_):
+                    fam.append(x_)
+                    work_.append(x_)
     tests = set()
     has_split = False
     for fb in fam:
         for e in fb.events:
             if e.bb not in fb.live:
                 continue
-            m = re.search(r"<impl str>::(starts_with|ends_with|contains|split|is_empty|split_terminator|rsplit)$", e.name)
+            m = re.search(r"<impl str>::(starts_with|strip_prefix|ends_with|contains|split|is_empty|split_terminator|rsplit)$", e.name)
             if m:
                 meth = m.group(1)
+                if meth == "strip_prefix":
+                    meth = "starts_with"       # Some(rest) exactly when it starts with the pattern
                 pat = None
                 if len(e.args) > 1:
                     a = e.args[1]
